@@ -14,6 +14,7 @@ import (
 
 func TestC05(t *testing.T) {
 	runProp(t, "C05", func(e *env) {
+		e.coldStage(7, 16, 23, 27)
 		r := e.r
 		eval := func(kind string, in []byte) error {
 			for ri := range c05Readers {
